@@ -2,6 +2,7 @@ package conc
 
 import (
 	"fmt"
+	"os"
 	"strings"
 	"testing"
 	"time"
@@ -165,7 +166,18 @@ func TestC02_Serializable(t *testing.T) {
 		}
 		final, err := e.Dump(stores, sop.ForReading)
 		if err != nil {
-			t.Fatalf("fresh reader afterwards: %v\n%s", err, desc)
+			var outc []string
+			for i, r := range res {
+				outc = append(outc, fmt.Sprintf("p%d committed=%v commitErr=%v opErr=%v", i, r.Committed, r.CommitErr, r.OpErr))
+				if os.Getenv("VERIF_DEBUG") != "" {
+					for _, c := range r.Trace {
+						if c.Comp == "BlobStore" || c.Comp == "StoreRepository" || (c.Comp == "L2" && c.Method == "Lock") {
+							outc = append(outc, fmt.Sprintf("     %s %s", c, c.Info))
+						}
+					}
+				}
+			}
+			t.Fatalf("fresh reader afterwards: %v\n %s\n%s", err, strings.Join(outc, "\n "), desc)
 		}
 		var committed []int
 		for i, r := range res {
